@@ -301,6 +301,15 @@ class PymbolicToASTMapper(CachedMapper):
         return self._map_multi_children_op(expr.children, ast.Mult())
 
     def map_constant(self, expr: ScalarT) -> ast.expr:
+        # the repr of a numpy scalar is not a Python literal: np.float64(1.5)
+        try:
+            import numpy
+        except ImportError:
+            pass
+        else:
+            if isinstance(expr, numpy.generic):
+                expr = expr.item()
+
         if isinstance(expr, bool):
             return ast.NameConstant(expr)
         elif isinstance(expr, (int, float)) and expr < 0:
